@@ -2,7 +2,7 @@
 from . import common, regexcorr
 from .common import Exc
 from .oracle_env import env_for
-from .url_grammar import gen_url, call, resource
+from .url_grammar import gen_url, call, resource, wrap_junk
 
 THEOREMS = ['C01_effective_port', 'C01_unsplit', 'C01_exceptions', 'C01_components', 'C01_examples (computed)'] + ["(main statement: harness deciders on the implementation + model correspondence — partial)"]
 REGEXES = ["CONTROL_CHARS_RE", "PROTOCOL_RE", "SLASH_SQUEEZE_RE", "ASCII_RE", "LOWERCASE_QUOTED_RE", "QUOTED_SPLIT_RE", "QUOTED_RE"]
@@ -26,9 +26,12 @@ def run(res, tier, rng):
     from ural import canonicalize_url
 
     urls = ["http://x.com/a/", "http://x.com:443/a", "https://x.com:80", "http://:pw@x.com/", "http://[::1]:80/a", "http://x.com/a%2541", "http://x.com/a/../?q=1",
-            "http://x.com/%2E%2E/a", "http://u:@x.com:0/a//b/./c/..?%41=%2B&&x#%23", "x.com/a b?q=a+b"]
+            "http://x.com/%2E%2E/a", "http://u:@x.com:0/a//b/./c/..?%41=%2B&&x#%23", "x.com/a b?q=a+b",
+            "http://lemonde.fr/search?q=a&amp;page=2", "http://lemonde.fr/search?q=a&amp%3Bpage=2&q=a", " http://x.com/a \x00"]
     for _ in range(5000 if tier == "quick" else 120000):
         urls.append(gen_url(rng))
+        if rng.random() < 0.08:
+            urls.append(wrap_junk(gen_url(rng), rng))
     cases = []
     for i, u in enumerate(urls):
         cases.append((u, ["http", "https", "ftp"][i % 3], bool(i & 1), bool(i & 2)))
@@ -73,7 +76,7 @@ def run(res, tier, rng):
     res.nontrivial = nontriv
     res.rule = ("URL grammar of the quantifier: scheme absent / '//' / mixed case / ftp; userinfo incl. empty user or password and escapes; hosts ASCII, upper case, IDN, punycode, IPv4, "
                 "bracketed IPv6, localhost; ports incl. 0, 80, 443, 65535; path / query / fragment built from the C14 token alphabet (escaped reserved and unreserved characters, malformed "
-                "and non-UTF-8 escapes, controls, raw space and non-ASCII) with '.', '..' and empty segments; x quoted x strip_fragment x default_protocol in {http, https, ftp}; the result is "
+                "and non-UTF-8 escapes, controls, raw space and non-ASCII) with '.', '..' and empty segments, repeated items and '&amp;' separators in queries, a share of the urls inside whitespace / control characters; x quoted x strip_fragment x default_protocol in {http, https, ftp}; the result is "
                 "re-parsed and its resource (scheme, decoded userinfo, host, effective port, resolved decoded segments + trailing slash, decoded query items, decoded fragment) compared with "
                 "that of the cleaned input; model vs implementation (string and unsplit=False). Non-trivial = urls changed by canonicalize_url.")
     res.sample(dict(url=urls[0], canonical=call(canonicalize_url, urls[0])))
